@@ -1,6 +1,7 @@
 (* C02 — the composition: search_model = search_spec. *)
 From Coq Require Import List Bool Arith NArith Lia Sorting.Sorted Sorting.Permutation RelationClasses.
-From C02 Require Import Model ProofsNodes ProofsBorders ProofsIterate ProofsFold ProofsLeaf.
+From VLib Require Import CaseLib.
+From C02 Require Import Model CaseDefs ProofsNodes ProofsBorders ProofsIterate ProofsFold ProofsLeaf.
 Import ListNotations.
 Open Scope N_scope.
 
@@ -115,6 +116,30 @@ Proof. intros [H1 N1] [H2 _]. apply N1. apply id_geb_antisym; auto. Qed.
 
 Definition rdir (rev : bool) (a b : id) : Prop := if rev then id_gt b a else id_gt a b.
 
+(* ---------------------------------------------------------------- histogram: order of the stream is irrelevant *)
+Lemma hist_add_comm : forall h a b, hist_add a (hist_add b h) = hist_add b (hist_add a h).
+Proof.
+  induction h as [|[k n] h IH]; intros a b; cbn [hist_add].
+  - destruct (N.ltb_spec a b), (N.ltb_spec b a), (N.eqb_spec a b), (N.eqb_spec b a); try lia; subst; auto.
+  - destruct (N.ltb_spec a k), (N.ltb_spec b k), (N.eqb_spec a k), (N.eqb_spec b k); try lia; subst; cbn [hist_add];
+      repeat match goal with
+             | |- context [N.ltb ?x ?y] => destruct (N.ltb_spec x y); try lia
+             | |- context [N.eqb ?x ?y] => destruct (N.eqb_spec x y); try lia
+             end; subst; try reflexivity; try lia.
+    rewrite IH. reflexivity.
+Qed.
+
+Lemma hist_fold_perm i l1 l2 : Permutation l1 l2 ->
+  forall h, fold_left (fun h m => hist_add (bucket i m) h) l1 h = fold_left (fun h m => hist_add (bucket i m) h) l2 h.
+Proof.
+  induction 1 as [|x l1 l2 P IH|x y l|l1 l2 l3 P1 IH1 P2 IH2]; intros h; cbn [fold_left]; auto.
+  - rewrite hist_add_comm. reflexivity.
+  - rewrite IH1. apply IH2.
+Qed.
+
+Lemma hist_of_perm i l1 l2 : Permutation l1 l2 -> hist_of i l1 = hist_of i l2.
+Proof. intros P. unfold hist_of. apply hist_fold_perm. exact P. Qed.
+
 (* ---------------------------------------------------------------- the theorem *)
 Section Search.
   Variable c : list doc.
@@ -171,10 +196,13 @@ Section Search.
         apply (D x d Ed X1) in Hr. destruct Hr. split; auto. split; auto. eauto.
   Qed.
 
-  Theorem search_exact rev limit wt hist :
-    search_model c q from to rev limit wt hist = Ok (search_spec c q from to rev limit wt).
+  (* the IDs of the LID stream are the specification's sorted list *)
+  Lemma stream_exact rev :
+    exists lids, tree_lids (prepare c) q from to rev = Ok lids /\
+      map (lid_id tab) lids =
+        (if rev then List.rev (IdSort.sort (map did (filter mt c))) else IdSort.sort (map did (filter mt c))).
   Proof.
-    destruct (tree_lids_spec rev) as [lids [El [Ss Si]]].
+    destruct (tree_lids_spec rev) as [lids [El [Ss Si]]]. exists lids. split; [exact El|].
     set (sorted := IdSort.sort (map did (filter mt c))).
     set (target := if rev then List.rev sorted else sorted).
     (* the specification's list is strictly sorted in the requested direction *)
@@ -191,7 +219,7 @@ Section Search.
       intros x y Hx Hy L. apply Si in Hx, Hy.
       destruct Hx as [X1 [dx [Ex _]]]. destruct Hy as [Y1 [dy [Ey _]]].
       rewrite (lid_id_dl _ _ Ex), (lid_id_dl _ _ Ey). unfold ltd, less in L. unfold rdir.
-      destruct rev; apply N.ltb_lt in L; eapply pos_gt; eauto. }
+      destruct rev; apply N.ltb_lt in L; [apply (pos_gt y x dy dx)|apply (pos_gt x y dx dy)]; auto. }
     assert (Irr : forall a, ~ rdir rev a a) by (intros a; unfold rdir; destruct rev; apply id_gt_irrefl).
     assert (Asym : forall a b, rdir rev a b -> rdir rev b a -> False).
     { intros a b; unfold rdir; destruct rev; intros; eapply id_gt_asym; eauto. }
@@ -213,14 +241,65 @@ Section Search.
         assert (Ed : dl tab (N.of_nat n + 1) = Some d).
         { unfold dl. replace (N.to_nat (N.of_nat n + 1 - 1)) with n by lia. exact En. }
         exists (N.of_nat n + 1). split; [apply lid_id_dl; auto|]. apply Si. split; [lia|]. eauto. }
-    assert (ND : NoDup (map (lid_id tab) lids)) by (eapply gsorted_nodup; eauto).
+    exact Eq.
+  Qed.
+
+  Lemma sorted_nodup : NoDup (IdSort.sort (map did (filter mt c))).
+  Proof.
+    eapply Permutation_NoDup; [apply IdSort.Permuted_sort|]. apply nodup_map_filter. exact Hnd.
+  Qed.
+
+  Theorem search_exact rev limit wt hist :
+    search_model c q from to rev limit wt hist = Ok (search_spec c q from to rev limit wt).
+  Proof.
+    destruct (stream_exact rev) as [lids [El Eq]].
+    set (sorted := IdSort.sort (map did (filter mt c))) in *.
+    set (target := if rev then List.rev sorted else sorted) in *.
+    assert (ND : NoDup (map (lid_id tab) lids)).
+    { rewrite Eq. unfold target. destruct rev; [apply NoDup_rev|]; apply sorted_nodup. }
     unfold search_model, search_prepared. rewrite El. cbn [bind]. unfold prepare. cbn [p_tab]. fold tab.
     rewrite (iterate_exact tab limit (wt || (0 <? hist)) lids ND).
     unfold search_spec, matching. fold mt. fold sorted. fold target. rewrite Eq. f_equal. f_equal.
     destruct wt; cbn [orb]; auto. f_equal.
     rewrite <- (map_length (lid_id tab) lids), Eq. unfold target.
     assert (length sorted = length (filter mt c)).
-    { rewrite <- (Permutation_length Psort). apply map_length. }
+    { unfold sorted. rewrite <- (Permutation_length (IdSort.Permuted_sort _)). apply map_length. }
     destruct rev; [rewrite rev_length|]; auto.
   Qed.
+
+  (* histogram = buckets of the matching documents *)
+  Theorem hist_exact rev hist :
+    hist_prepared (prepare c) q from to rev hist = Ok (hist_spec c q from to hist).
+  Proof.
+    unfold hist_prepared, hist_spec. destruct (0 <? hist); [|reflexivity].
+    destruct (stream_exact rev) as [lids [El Eq]]. rewrite El. cbn [bind]. f_equal.
+    unfold prepare. cbn [p_tab]. fold tab. unfold matching. fold mt.
+    apply hist_of_perm.
+    rewrite <- (map_map (lid_id tab) fst lids), Eq.
+    replace (map dmid (filter mt c)) with (map fst (map did (filter mt c))) by (rewrite map_map; reflexivity).
+    apply Permutation_map. apply Permutation_sym.
+    destruct rev; [eapply Permutation_trans; [|apply Permutation_rev]|]; apply IdSort.Permuted_sort.
+  Qed.
 End Search.
+
+(* ---------------------------------------------------------------- link to the executable verdicts *)
+Lemma list_eqb_refl {A} (e : A -> A -> bool) : (forall a, e a a = true) -> forall l, list_eqb e l l = true.
+Proof. intros H. induction l as [|a l IH]; simpl; auto. rewrite H, IH. reflexivity. Qed.
+
+Theorem search_case_ok c from to q rev limit wt hist :
+  Forall ok_doc c -> NoDup (map did c) -> N.of_nat (length c) + 1 < two32 ->
+  let '(ids, total) := search_spec c q from to rev limit wt in
+  let s := SQ q q from to rev limit wt hist ids total (hist_spec c q from to hist) in
+  sq_agrees (prepare c) s = true /\ sq_spec_ok c s = true.
+Proof.
+  intros H1 H2 H3. destruct (search_spec c q from to rev limit wt) as [ids total] eqn:E. cbn zeta.
+  assert (I : ids_eqb ids ids = true).
+  { apply list_eqb_refl. intros [m r]. unfold id_eqb. simpl. rewrite !N.eqb_refl. reflexivity. }
+  assert (Hh : forall h, hist_eqb h h = true).
+  { apply list_eqb_refl. intros [m r]. unfold pair_eqb. simpl. rewrite !N.eqb_refl. reflexivity. }
+  split.
+  - unfold sq_agrees. pose proof (search_exact c from to q H1 H2 H3 rev limit wt hist) as S.
+    unfold search_model in S. rewrite S, E. rewrite (hist_exact c from to q H1 H2 H3 rev hist).
+    rewrite I, N.eqb_refl, Hh. reflexivity.
+  - unfold sq_spec_ok. rewrite E. rewrite I, N.eqb_refl, Hh. reflexivity.
+Qed.
